@@ -83,23 +83,31 @@ func Process(stmts []*proto.Statement, rwrand, rwtime bool) (retErr error) {
 func ContainsTime(stmt string) bool {
 	// Since this is a simple substring search, it also matches datetime(
 	// and strftime(.
-	targets := []string{"time(", "date(", "julianday(", "unixepoch(", "timediff("}
-	for _, target := range targets {
-		if strings.Contains(stmt, target) {
-			return true
-		}
-	}
-	return false
+	return containsCall(stmt, "time", "date", "julianday", "unixepoch", "timediff")
 }
 
 // ContainsRandom returns true if the statement contains a random-related function.
 // The function performs a lower-case comparison so it is up to the caller to
 // ensure the statement is lower-cased.
 func ContainsRandom(stmt string) bool {
-	targets := []string{"random(", "randomblob("}
-	for _, target := range targets {
-		if strings.Contains(stmt, target) {
-			return true
+	return containsCall(stmt, "random", "randomblob")
+}
+
+// containsCall returns true if the statement contains one of the given names
+// followed by an opening parenthesis. SQLite allows white space between the
+// name of a function and the parenthesis, so it is allowed here too.
+func containsCall(stmt string, names ...string) bool {
+	for _, name := range names {
+		rest := stmt
+		for {
+			i := strings.Index(rest, name)
+			if i < 0 {
+				break
+			}
+			rest = rest[i+len(name):]
+			if strings.HasPrefix(strings.TrimLeft(rest, " \t\r\n\f"), "(") {
+				return true
+			}
 		}
 	}
 	return false
